@@ -33,6 +33,12 @@ type ExpOutput struct {
 type ExpStep struct {
 	Lines   []string    `json:"lines"` // what the subprocess will print (it echoes its input)
 	Outputs []ExpOutput `json:"outputs"`
+	// Late: the step's input is sent only after 1.2 s (IO.WaitBefore) -
+	// after the session's default timeout (150 ms), so what it expects
+	// "never arrives before the timeout" unless the step has a timeout of
+	// its own.  OwnTimeout: the step sets IO.Timeout (3 s).
+	Late       bool `json:"late,omitempty"`
+	OwnTimeout bool `json:"ownTimeout,omitempty"`
 }
 
 // (ExpCase.Again: when the tool passes the session, run the same Session
@@ -96,7 +102,7 @@ func (c ExpCase) expanded() ExpCase {
 	out := ExpCase{Again: c.Again}
 	budget := 40000
 	for _, st := range c.Steps {
-		ns := ExpStep{Outputs: st.Outputs}
+		ns := ExpStep{Outputs: st.Outputs, Late: st.Late, OwnTimeout: st.OwnTimeout}
 		for _, l := range st.Lines {
 			ns.Lines = append(ns.Lines, padMarker.ReplaceAllStringFunc(l, func(m string) string {
 				n, _ := strconv.Atoi(padMarker.FindStringSubmatch(m)[1])
@@ -138,6 +144,27 @@ func genExp(t *rapid.T) ExpCase {
 			}
 		}
 		c.Steps = append(c.Steps, st)
+		return c
+	}
+	if rapid.IntRange(0, 11).Draw(t, "scenario3") == 5 {
+		// built: a step with a timeout of its own, in time; then a step
+		// without one whose expected message arrives only after the
+		// session's default timeout (sometimes a step in between)
+		mk := func(label string) ExpStep {
+			o := genExpOutput(t, label, false)
+			o.Guard = nil
+			return ExpStep{Outputs: []ExpOutput{o}, Lines: []string{lineFor(t, o, label+".line")}}
+		}
+		first := mk("sc3.first")
+		first.OwnTimeout = true
+		c.Steps = append(c.Steps, first)
+		if rapid.Bool().Draw(t, "sc3.between") {
+			c.Steps = append(c.Steps, mk("sc3.between"))
+		}
+		late := mk("sc3.late")
+		late.Late = true
+		late.OwnTimeout = rapid.IntRange(0, 3).Draw(t, "sc3.own") == 0
+		c.Steps = append(c.Steps, late)
 		return c
 	}
 	if rapid.IntRange(0, 9).Draw(t, "scenario2") == 0 {
@@ -250,7 +277,14 @@ func modelVerdict(c ExpCase) (pass bool, why string, features []string) {
 	pos := 0
 	var stream []string
 	for si, st := range c.Steps {
-		stream = append(stream, st.Lines...)
+		// lines that are sent after the step's timeout are not there for
+		// it (they are for whatever step comes later)
+		late := st.Late && !st.OwnTimeout
+		if !late {
+			stream = append(stream, st.Lines...)
+		} else {
+			features = append(features, "input-after-the-timeout")
+		}
 		satisfied := make([]bool, len(st.Outputs))
 		need := 0
 		for _, o := range st.Outputs {
@@ -299,6 +333,9 @@ func modelVerdict(c ExpCase) (pass bool, why string, features []string) {
 				done = true
 			}
 		}
+		if late {
+			stream = append(stream, st.Lines...)
+		}
 		if !done && onlyForbids {
 			// no message arrived at all: nothing forbidden was seen
 			continue
@@ -333,6 +370,12 @@ func checkExp(c ExpCase) (v ev.Verdict) {
 	s := &expect.Session{Interpreters: sm.Interpreters(), DefaultTimeout: 150 * time.Millisecond}
 	for _, st := range c.Steps {
 		iop := expect.IO{}
+		if st.Late {
+			iop.WaitBefore = 1200 * time.Millisecond
+		}
+		if st.OwnTimeout {
+			iop.Timeout = 3 * time.Second
+		}
 		for _, l := range st.Lines {
 			iop.Inputs = append(iop.Inputs, l)
 		}
